@@ -36,7 +36,8 @@ FUNCTIONS = {'f': ('integer', [('x', 'integer'), ('y', 'real')]),
 BRIDGES = {'b': ('integer', [('p', 'integer'), ('q', 'string')]),
            'n': ('void', [])}
 OPERATIONS = {'op': ('integer', True, [('q', 'integer'), ('r', 'boolean')]),     # instance based
-              'cop': ('integer', False, [])}                                      # class based
+              'cop': ('integer', False, []),                                      # class based
+              'cop2': ('integer', False, [('k', 'integer'), ('s', 'string')])}    # class based, with parameters
 EE = 'EE'
 ENUM = ('Color', ['Red', 'Green', 'Blue'])
 CONSTANT = ('K', 'TEN', 'integer', '10')
@@ -371,7 +372,7 @@ def build_host(m, variant=None):
 
         # -- operations of A ----------------------------------------------------------------------------
         prev_tfr = None
-        for numb, name in enumerate(['op', 'cop'], 1):
+        for numb, name in enumerate(['op', 'cop', 'cop2'], 1):
             ret, instance_based, params = OPERATIONS[name]
             o_tfr = m.new('O_TFR', Name=name, Instance_Based=int(instance_based), Numb=numb, Suc_Pars=0)
             rel(o_tfr, objs['A'], 115)
@@ -1621,7 +1622,9 @@ def calls_in_expressions():
            ('ncall', 'EE', 'b', [('p', I(1)), ('q', STR)]), ('ncall', 'EE', 'b', [('q', STR), ('p', I(2))]),
            ('ncall', 'A', 'cop', []),
            ('icall', V('a'), 'op', [('q', I(1)), ('r', TRUE)]), ('icall', V('a'), 'op', [('r', FALSE), ('q', I(2))]),
-           ('icall', SELF, 'op', [('q', I(1)), ('r', TRUE)])]
+           ('icall', SELF, 'op', [('q', I(1)), ('r', TRUE)]),
+           # (appended: positions in this list are used by index below)
+           ('ncall', 'A', 'cop2', [('k', I(1)), ('s', STR)]), ('ncall', 'A', 'cop2', [('s', STR), ('k', I(2))])]
     return out
 
 
